@@ -441,6 +441,12 @@ pub fn apply_schema(
             ));
         }
 
+        // 1.1 the primary key (its columns and their order) can never change:
+        // packed keys and the CRR clock tables are bound to it
+        if !table.pk.iter().eq(new_table.pk.iter()) {
+            return Err(ApplySchemaError::ModifyPrimaryKeys(name.clone()));
+        }
+
         // 2. check for changed columns
 
         let changed_cols: HashMap<String, Column> = table
